@@ -124,6 +124,27 @@ func runZones(p *core.Prog, r *core.Report, rule string, targets []zoneTarget) {
 					return nil, false
 				}
 				callees := p.Callees(call)
+				{
+					// a standard-library function that is handed only plain values (strings, numbers, byte slices) cannot
+					// reach the module's objects: strconv.ParseBool(s), utf8.RuneLen(r), …
+					if sc := sx.StaticCallee(call); sc != nil && !p.InModule(sc) && sc.Signature.Recv() == nil {
+						plain := true
+						for _, a := range call.Common().Args {
+							switch t := a.Type().Underlying().(type) {
+							case *types.Basic:
+							case *types.Slice:
+								if _, isB := t.Elem().Underlying().(*types.Basic); !isB {
+									plain = false
+								}
+							default:
+								plain = false
+							}
+						}
+						if plain {
+							return nil, false
+						}
+					}
+				}
 				if len(callees) == 0 {
 					// unknown code (a user's handler): it can write exported fields through the pointers it
 					// receives, and can call any module function except re-entering the analysed function on
